@@ -62,6 +62,15 @@ def job_label(j):
     return j["func"] + ("[" + s + "]" if s else "")
 
 
+def _bounds_text(b, tier):
+    """bounds of this tier + every bound that is stated independently of the tier (keys other than quick/thorough)"""
+    if not isinstance(b, dict):
+        return b
+    parts = [b[tier]] if tier in b else []
+    parts += ["%s" % v for k, v in b.items() if k not in ("quick", "thorough")]
+    return " | ".join(parts) if parts else b
+
+
 def main(argv=None):
     ap = argparse.ArgumentParser()
     ap.add_argument("pid")
@@ -349,7 +358,7 @@ def main(argv=None):
         "exhaustive": bool(harness_summ) and not explored and not problems and all(
             v["verdict"] == "CONFIRMED" for v in harness_summ.values()),
         "functions_encoded": sorted(functions) + list(info.get("functions_extra", [])),
-        "bounds": info.get("bounds", {}).get(tier, info.get("bounds", {})),
+        "bounds": _bounds_text(info.get("bounds", {}), tier),
         "outside_bounds": info.get("outside", []),
         "harnesses": harness_summ,
         "confirmed_exhaustive": confirmed,
